@@ -15,6 +15,9 @@ GEN = "CONSTANTS Limit = 3\n MaxNest = 0\n Sim = FALSE\n Mode = \"g\"\nINIT GIni
 PATHO = {"path1": lambda n: "*a **a\n" * n + "b " + "a** a*\n" * n, "path2": lambda n: "a_\n" * n, "path3": lambda n: "_a\n" * n, "path4": lambda n: "a]\n" * n, "path5": lambda n: "[a\n" * n,
          "path6": lambda n: "*a_\n" * n, "path7": lambda n: "[ a_\n" * n, "path8": lambda n: "**x [*b**c*](d)\n" * n, "brackets": lambda n: "[" * (10 * n) + "a" + "]" * (10 * n) + "\n",
          # unbalanced runs: above the library's large-stack threshold (1000 open items) the search is cut short, so the seed itself must already be above it
+         # many closed spans in ONE paragraph (a single long sibling chain)
+         "strongs": lambda n: "**a** " * (4 * n) + "\n", "emphs": lambda n: "*a* " * (4 * n) + "\n", "codes": lambda n: "`a` " * (4 * n) + "\n", "links": lambda n: "[a](b) " * (4 * n) + "\n",
+         "critics": lambda n: "{++a++} " * (4 * n) + "\n",
          "mixed": lambda n: "[ ( ]" + "[" * (20 * n) + ")" * (20 * n) + "\n"}
 
 
@@ -75,6 +78,16 @@ def run(tier, seed):
             s.append(line("cost", "k%d" % k, docs.FMT["html"], docs.STD))
             if tier == "thorough": s.append(line("cost", "k%d" % k, docs.FMT["latex"], docs.STD))
         segs.append(s); meta.append(("cost", nm))
+    # notes that refer to themselves, directly or through another note: the writers that expand a note where it is called (LaTeX family, OpenDocument)
+    # must still end; one back reference per note gives a chain (bounded by the export depth guard), two give a tree (listed finding)
+    CYC = {"self-footnote": "x[^a]\n\n[^a]: one [^a]\n", "self-citation": "x[#a]\n\n[#a]: one [#a]\n", "self-glossary": "x[?a]\n\n[?a]: one [?a]\n",
+           "two-cycle": "x[^a] y[^b]\n\n[^a]: to b [^b]\n\n[^b]: back [^a]\n", "mixed-cycle": "x[^a]\n\n[^a]: cite [#c]\n\n[#c]: gloss [?g]\n\n[?g]: note [^a]\n",
+           "double-back": "x[^a]\n\n[^a]: to b [^b]\n\n[^b]: back [^a] [^a]\n"}
+    for nm, doc in CYC.items():
+        for w in ("html", "latex", "fodt", "beamer", "memoir", "opml"):
+            if nm == "double-back" and tier == "quick" and w in ("beamer", "memoir"): continue
+            s = ["seg\tcycle", "timeout\t%d" % (5 if nm == "double-back" else 60), line("src", "k1", sx(doc.encode())), line("cost", "k1", docs.FMT[w], docs.STD)]
+            segs.append(s); meta.append(("cost", "cycle:%s:%s" % (nm, w)))
     res = run_harness(exe, segs, timeout=120)
     trace = []; problems = []; n = 0
     for (kind, what), seg, r in zip(meta, segs, res):
@@ -95,7 +108,7 @@ def run(tier, seed):
     chk.cov["evaluations"] = n; chk.cov["distinct_nontrivial"] = len(segs)
     chk.cov["explanation"] = ("Recursion structure model-checked (Limit 3 and 1000); measurements of %d conversions judged by the Cost monitor: stack <= 4 MiB and not growing with nesting beyond 2000 for %d nesting constructs x 4 shapes x depths %s; "
                               "blocks(d^k) <= 3 k blocks(d) for %d seed documents x k in %s. Measurement, not proof." % (n, len(gens) // 4, depths, len(seeds), ks))
-    chk.cov["rule"] = "nesting docs = opener^n [a closer^n] for 32 opener kinds x 4 shapes x depths; cost docs = seed^k for pool/corpus/pathological seeds"
+    chk.cov["rule"] = "nesting docs = opener^n [a closer^n] for 32 opener kinds x 4 shapes x depths; cost docs = seed^k for pool/corpus/pathological seeds; cyclic note references (6 shapes) x 6 writers must return"
     chk.cov["max_observed"] = dict(maxdepth=max([e.get("maxdepth", 0) for e in trace if e["e"] in ("nest", "cost")] or [0]), stackkib=max([e.get("stackkib", 0) for e in trace if e["e"] == "nest"] or [0]))
     chk.sample(dict(doc=nest_doc(gens[0], 10))); chk.sample(dict(seed="patho:path1", k=ks))
     seen = {}
@@ -105,6 +118,7 @@ def run(tier, seed):
         elif ev["e"] == "cost":
             b = [x for x in seg if x.get("e") == "cost" and x["seed"] == ev["seed"] and x["k"] == 1]
             key = "superlinear:%s" % ev["seed"].split("|")[0]; desc = "seed %s: %d copies cost %d kblocks, one copy %s kblocks" % (ev["seed"], ev["k"], ev["kblocks"], b[0]["kblocks"] if b else "?")
+        elif str(ev.get("what", "")).startswith("cycle:"): key = "%s:%s" % (ev["e"], ":".join(ev["what"].split(":")[:2])); desc = "%s: conversion of a document whose notes refer to each other did not return (%s)" % (ev["what"], ev["e"])
         else: key = "%s:%s" % (ev["e"], ev.get("what", ""))[:120]; desc = "conversion did not return: %s during %s" % (ev["e"], ev.get("cmd"))
         if key in seen: seen[key] += 1; continue
         seen[key] = 1
